@@ -29,6 +29,11 @@ var concTexts = []string{
 	"x = 1 +* 2\ny = 3", // syntax error on line 1
 	"switch a {\ncase 1:\n\tb\ndefault:\n\tc\n}",
 	"# comment\na.b[1:2] = <-c",
+	// two LARGE texts of few tokens (4100-byte literals): state a parser keeps for
+	// large inputs only (a last-parse memo, a pooled buffer above a size threshold) is
+	// reached, and with three tokens each every interleaving is explored
+	"a = \"" + strings.Repeat("a", 4100) + "\"",
+	"b = \"" + strings.Repeat("b", 4100) + "\"",
 }
 
 type concReplay struct {
@@ -64,11 +69,13 @@ func concurrentPhase(c *common.Ctx, res *common.Result) {
 			groups = append(groups, []int{i, j})
 		}
 	}
-	// triples over a sub-corpus
+	// triples over a sub-corpus (the large texts: a repeated text next to another one)
 	tri := []int{3, 6}
 	if c.Thorough() {
 		tri = []int{0, 1, 2, 3, 6, 7, 9}
 	}
+	nL := len(concTexts)
+	groups = append(groups, []int{nL - 2, nL - 2, nL - 1}, []int{nL - 2, nL - 1, nL - 2}, []int{nL - 1, nL - 2, nL - 2}, []int{nL - 2, nL - 1, nL - 1})
 	for a := 0; a < len(tri); a++ {
 		for b := a; b < len(tri); b++ {
 			for d := b; d < len(tri); d++ {
